@@ -57,7 +57,7 @@ package kcp
 //@ func RingBuffer.grow
 //@   requires r.inv()
 //@   modifies r
-//@   ensures r.inv() && r.rlen() == old(r.rlen()) && r.head == 0 && r.tail == r.rlen()
+//@   ensures r.inv() && r.rlen() == old(r.rlen())
 //@   ensures forall i int :: 0 <= i && i < r.rlen() ==> r.at(i) == old(r.at(i))
 //@   ensures fresh(r.elements) && r.c() > old(r.c())
 //@   ensures old(r.c()) < 8 ==> r.c() == 8
